@@ -73,6 +73,9 @@ class Shapes:
             idx = list(e.slice.elts) if isinstance(e.slice, ast.Tuple) else [e.slice]
             out, i = [], 0
             for ix in idx:
+                if (isinstance(ix, ast.Constant) and ix.value is None) or (dotted(ix) in ("np.newaxis", "numpy.newaxis", "newaxis")):
+                    out.append("1")              # a new axis of length 1
+                    continue
                 if i >= len(b):
                     return None
                 if isinstance(ix, ast.Slice):
@@ -142,6 +145,27 @@ class Shapes:
                     r0 = self.of(reps[0])
                     d0 = self.env.get("#" + " ".join(ast.unparse(reps[0]).split()))
                     return (d0 or "?",) + tuple(b)
+                return None
+            if nm in ("broadcast_to", "repeat") and e.args:
+                # a column (C, 1) stretched along the period axis: broadcast_to(col, (C, T)) / repeat(col, T, axis=1)
+                b = self.of(e.args[0])
+                if b is not None and len(b) == 2 and b[1] in ("1", 1):
+                    return (b[0], "T")
+                return b if nm == "broadcast_to" else None
+            if nm == "reshape":
+                arg = e.func.value if isinstance(e.func, ast.Attribute) and dotted(e.func.value) not in ("np", "numpy") else (e.args[0] if e.args else None)
+                dims = e.args if isinstance(e.func, ast.Attribute) and dotted(e.func.value) not in ("np", "numpy") else e.args[1:]
+                if len(dims) == 1 and isinstance(dims[0], ast.Tuple):
+                    dims = dims[0].elts
+                b = self.of(arg) if arg is not None else None
+                vals = []
+                for d in dims:
+                    try:
+                        vals.append(ast.literal_eval(d))
+                    except Exception:
+                        vals.append(None)
+                if b is not None and len(b) == 1 and vals == [-1, 1]:
+                    return (b[0], "1")
                 return None
             if nm in ("len",):
                 return ()
